@@ -757,7 +757,8 @@ Variable fr : node -> ctx -> ctx * option err.
 
 (* DecodeRuleset: stops at the first failing rule or break / continue; a
    lazybreak is remembered, the rest of the block runs, and the signal is handed
-   on afterwards *)
+   on afterwards; a continue that comes after a remembered lazybreak ends the
+   iteration and the loop, i.e. is a break *)
 Fixpoint rules_lz (l : list node) (c : ctx) (lz : bool) : ctx * option err :=
   match l with
   | [] => (c, if lz then Some ELBreak else None)
@@ -765,6 +766,7 @@ Fixpoint rules_lz (l : list node) (c : ctx) (lz : bool) : ctx * option err :=
       match fr n c with
       | (c', None) => rules_lz r c' lz
       | (c', Some ELBreak) => rules_lz r c' true
+      | (c', Some ECont) => (c', if lz then Some EBreak else Some ECont)
       | res => res
       end
   end.
